@@ -1058,6 +1058,17 @@ sparse(PyTypeObject *type, PyObject *args, PyObject *kwds)
 
     for (jk=0; jk<SP_NCOLS(Objx); jk++)
       SP_COL(ret)[jk+1] += SP_COL(ret)[jk];
+
+    /* requested typecode */
+    if (id != -1 && id != SP_ID(ret)) {
+      if (id < SP_ID(ret)) {
+        Py_DECREF(ret);
+        PY_ERR_TYPE("cannot convert a complex matrix to a real matrix");
+      }
+      spmatrix *tmp = SpMatrix_NewFromSpMatrix(ret, id);
+      Py_DECREF(ret);
+      ret = tmp;
+    }
   }
 
   /* x is a list of lists */
